@@ -29,6 +29,7 @@ type RefLog struct {
 	tsNanos uint64
 	Roots   []RefRoot // every root ever published, in order (Roots[0] is the empty tree)
 	Calls   map[string]int
+	lastID  []byte
 }
 
 // RefRoot is one published log root.
@@ -71,6 +72,24 @@ func (l *RefLog) Sequence(k int, tsNanos uint64) uint64 {
 	l.tsNanos = tsNanos
 	l.Roots = append(l.Roots, RefRoot{l.tree.Size(), l.tree.Hash(), tsNanos})
 	return l.tree.Size()
+}
+
+// LastQueuedIdentity is the LeafIdentityHash of the most recent QueueLeaf request as the caller sent it.
+func (l *RefLog) LastQueuedIdentity() []byte {
+	l.mu.Lock()
+	defer l.mu.Unlock()
+	return append([]byte(nil), l.lastID...)
+}
+
+// PendingIdentities lists the identity hashes of the queued (not yet integrated) leaves in queue order.
+func (l *RefLog) PendingIdentities() [][]byte {
+	l.mu.Lock()
+	defer l.mu.Unlock()
+	var ids [][]byte
+	for _, lf := range l.pending {
+		ids = append(ids, append([]byte(nil), lf.LeafIdentityHash...))
+	}
+	return ids
 }
 
 // NumRoots is the number of roots published so far; RootN returns the i-th of them (both safe for concurrent use).
@@ -125,6 +144,7 @@ func (l *RefLog) QueueLeaf(_ context.Context, in *trillian.QueueLeafRequest, _ .
 		return nil, status.Error(codes.InvalidArgument, "reflog: empty leaf")
 	}
 	id := in.Leaf.LeafIdentityHash
+	l.lastID = append([]byte(nil), id...)
 	if len(id) == 0 {
 		id = rfc6962.DefaultHasher.HashLeaf(in.Leaf.LeafValue)
 	}
